@@ -64,6 +64,8 @@ TRANSLATED = {
     "LinearStateModel": "LinearStateModel.cpp",
     "LTIStateModel": "LTIStateModel.cpp",
     "WhiteNoiseAcceleration": "WhiteNoiseAcceleration.cpp",
+    # header-only helper holding the skip state (translated from a unit that includes it)
+    "SkipFlag": "GaussianPrediction.cpp",
 }
 
 # public control / query API (thread Ctl); boot and wait are the fork and the join
@@ -532,6 +534,9 @@ class Body:
             if k == "MemberExpr":
                 return
             break
+        # `return *this;` hands the caller a reference to the object it already called the method on
+        if len(chain) >= 2 and chain[-1].get("kind") == "UnaryOperator" and chain[-1].get("opcode") == "*" and chain[-2].get("kind") == "ReturnStmt":
+            return
         # inside a std::thread construction (handled there) or an argument of the verification hook
         for p in reversed(chain):
             if p.get("kind") in ("CXXTemporaryObjectExpr", "CXXConstructExpr") and THREAD_TYPE.match(norm_std(qual(p))):
